@@ -224,6 +224,9 @@ LK = {
                  'late': 'compiler', 'permachine': True},
     'b_ndebug': {'type': 'combo', 'choices': ['true', 'false', 'if-release'], 'vals': ['false', 'true', 'if-release'], 'persub': None, 'late': 'base'},
     'b_lto':    {'type': 'boolean', 'vals': [False, True], 'persub': None, 'late': 'base'},
+    # late booleans whose documented default is true: the value that overrides the default is the "empty" one (false)
+    'b_staticpic': {'type': 'boolean', 'vals': [True, False], 'persub': None, 'late': 'base'},
+    'b_lundef':    {'type': 'boolean', 'vals': [True, False], 'persub': None, 'late': 'base'},
     # backend option (Build-options.md "Ninja / Max links", listed by meson configure among the Backend options, ">=0"): comes into
     # existence when the backend is chosen, after all sources have been read.  Tier A: the real Environment.init_backend_options
     # + CoreData.init_backend_options; tier B: a setup with the ninja backend.
@@ -1611,10 +1614,11 @@ INVALID = {
     'optimization': [('outside-choices', '4', False)],
     'default_library': [('outside-choices', 'dynamic', False)],
     'python.bytecompile': [('above-max', '3', False), ('below-min', '-2', False)],
-    'c_std': [('outside-choices', 'c23x', False)],
+    'c_std': [('outside-choices', 'c23x', False), ('empty', '', False)],
     'b_ndebug': [('outside-choices', 'maybe', False)],
-    'b_lto': [('not-boolean', 'maybe', False)],
-    'backend_max_links': [('below-min', '-1', False), ('not-integer', 'x', False)],
+    'b_lto': [('not-boolean', 'maybe', False), ('empty', '', False), ('wrong-type', 0, True), ('wrong-type', [], True)],
+    'b_staticpic': [('not-boolean', 'maybe', False), ('empty', '', False), ('wrong-type', 0, True)],
+    'backend_max_links': [('below-min', '-1', False), ('not-integer', 'x', False), ('empty', '', False), ('wrong-type', False, True)],
 }
 # Build-options.md does not say that repeated array elements are invalid (the implementation only deprecates them)
 UNSPEC_INVALID = [('varr', 'duplicate-element', 'x,x')]
